@@ -159,11 +159,14 @@ class World:
         self.msg_log = []         # delivered messages
         self.lost_msgs = []       # (key, message) dropped for good
         self._job_last_due = {}
+        self.effect_log = None    # list of (kind, detail) when recording
 
     # ------------------------------------------------------------------
     def effect(self, kind, detail=''):
         """A durable / externally visible effect: potential crash point."""
         self.effects += 1
+        if self.effect_log is not None:
+            self.effect_log.append((kind, detail))
         if self.crash_at is not None and self.effects == self.crash_at:
             self.sim.fault('crash')
             self.sim.log('CRASH at effect', self.effects, kind, detail)
